@@ -23,7 +23,10 @@ pub fn blp_to_image(image: &BlpImage, mipmap_level: usize) -> Result<DynamicImag
     match &image.content {
         BlpContent::Raw1(content) => raw1_to_image(&image.header, content, mipmap_level),
         BlpContent::Raw3(content) => raw3_to_image(&image.header, content, mipmap_level),
-        BlpContent::Jpeg(content) => jpeg_to_image(content, mipmap_level),
+        BlpContent::Jpeg(content) => {
+            jpeg::check_jpeg_dimensions(&image.header, content, mipmap_level)?;
+            jpeg_to_image(content, mipmap_level)
+        }
         BlpContent::Dxt1(content) => dxtn_to_image(&image.header, content, mipmap_level),
         BlpContent::Dxt3(content) => dxtn_to_image(&image.header, content, mipmap_level),
         BlpContent::Dxt5(content) => dxtn_to_image(&image.header, content, mipmap_level),
